@@ -308,7 +308,7 @@ class Runner:
         self.snap = start_state(start)
         self.found: Dict[str, tuple] = {}   # signature -> (message, choices, serial order | None) smallest first
         self.sequential_sigs = set()        # oracle signatures already violated without any interleaving
-        self.stats = {'executions': 0, 'lock_waits': 0, 'deadlocks': 0, 'yields': 0, 'stmt_retries': 0, 'max_workers': 0,
+        self.stats = {'executions': 0, 'lock_waits': 0, 'deadlocks': 0, 'yields': 0, 'stmt_retries': 0,
                       'executions_with_lock_wait': 0, 'executions_with_deadlock': 0, 'preimage_rows_served': 0,
                       'dirty_column_waits': 0, 'locks_s': 0, 'locks_x': 0, 'beyond_deadlock_bound': 0}
         self.serial: Dict[str, Tuple[dict, tuple]] = {}
@@ -372,7 +372,6 @@ class Runner:
                 gaps = list(_lx.GAPS)
                 del _lx.GAPS[:]
                 raise RuntimeError(f'minisql harness gap during {self.name}: {gaps[:3]}')
-        self.stats['max_workers'] = max(self.stats['max_workers'], tm.pool.created)
         return canon(w), tuple(res), tm.stats, tm.trace, self._state_violations(), errs
 
     def serial_refs(self):
@@ -393,7 +392,26 @@ class Runner:
                     ex = e.get('exception')
                     self._sequential(f'loop-error:{type(ex).__name__ if ex else "?"}', f'{where}: {e.get("message")}: {ex!r}', order)
                 self.serial[o] = (dump, res)
+                self._cross_check(order, dump, res)
         return self.serial
+
+    def _cross_check(self, order, dump, res):
+        """The step-by-step driver (txmc's generator mirror of CALL / IF / LOOP ... + lock and read-view hooks) must be
+        neutral when nothing is concurrent: the same operations run one after the other on the PLAIN engine (no model,
+        every transaction an atomic step) must leave the same canonical store and return the same results."""
+        from vf import txmc
+
+        w = self.w
+        w.restore(self.snap)
+        factories = [op_factory(w, l) for l in self.labels]
+        plain = [None] * len(factories)
+        with _seams(w):
+            for i in order:
+                plain[i] = w.run(_run_op(i, factories[i]))
+        d2 = canon(w)
+        if d2 != dump or tuple(plain) != tuple(res):
+            raise txmc.HarnessError(f'{self.name}/{self.start}: serial order {order} under the transaction model differs from the plain '
+                                    f'engine: {_diff(d2, dump)[:3]} results {plain} vs {list(res)}')
 
     def run_one(self, chooser):
         serial = self.serial_refs()
@@ -520,7 +538,7 @@ def _explore_item(item):
         'distinct_states': res.distinct_states, 'capped': res.capped, 'distinct_outcomes': len(res.outcomes),
         'outcomes_by_serial_match': _by_match(res.outcomes),
         'serial_orders_distinct': len({_h(sorted(d.items())) for d, _ in r.serial.values()}),
-        'stats': dict(r.stats), 'wall': round(time.time() - t0, 2), 'worker_threads_alive': txmc.live_worker_threads(),
+        'stats': dict(r.stats), 'wall': round(time.time() - t0, 2),
         'violations': _violation_list(r),
         'sample_schedule': r.first_trace,
     }
@@ -602,7 +620,21 @@ def extra_phase(tier, procs, monitors=('C01', 'C06', 'C41')):
     boot.install()
     world()   # build once, before forking
     items = par.rotate(items_for(tier, tuple(monitors)), int(os.environ.get('VERIF_SEED', '0') or 0))
-    results = par.pmap(explore_item, items, procs=max(1, min(procs, len(items))), chunksize=1)
+    for name in sorted({it[1] for it in items}):   # build every start state (and import the service modules) once, before forking
+        try:
+            start_state(name)
+        except Exception:  # noqa: BLE001   (reported by the item that needs it)
+            pass
+    import gc
+
+    gc.collect()
+    gc.freeze()   # forked workers must not copy the parent's heap page by page when their collector runs
+    # every forked worker first copies the pages it touches (~2 s of page faults under load): few workers for the quick subset
+    nproc = max(1, min(procs, len(items), 3 if tier == 'quick' else procs))
+    try:
+        results = par.pmap(explore_item, items, procs=nproc, chunksize=1)
+    finally:
+        gc.unfreeze()
     results.sort(key=lambda r: (r['snapshot_reads'], len(r['ops']), r['pair'], r['start']))
     errors = [{'pair': r['pair'], 'start': r['start'], 'error': r['error'], 'traceback': r['traceback']}
               for r in results if 'error' in r and not r['snapshot_reads']]
@@ -640,7 +672,6 @@ def extra_phase(tier, procs, monitors=('C01', 'C06', 'C41')):
                    ', '.join(f'{n}: ' + ('every schedule' if b is None else f'<= {b} deviations from first-ready order') for n, _, _, b in TRIPLES) + '; '
                    if tier != 'quick' else 'quick subset of pairs: every schedule (state-hash pruned DFS); ') +
                   'executions with more than 2 deadlock victims are finished in FIFO order without further branching',
-        'max_worker_threads': max([r['stats']['max_workers'] for r in results] or [0]),
         'wall': round(time.time() - t0, 1),
         'executions_finished_unbranched_beyond_deadlock_bound': tot('beyond_deadlock_bound'),
         'per_item': [{k: r[k] for k in ('pair', 'start', 'executions', 'distinct_outcomes', 'outcomes_by_serial_match',
@@ -665,17 +696,23 @@ def extra_phase(tier, procs, monitors=('C01', 'C06', 'C41')):
     return cov, sorted(viols.values(), key=lambda v: v['signature'])
 
 
-def merge_into(result, tier, procs, monitors):
-    """Helper for the check modules: run the phase and merge it into a check() result dict.  A failure inside the phase
-    never hides a violation (of the main search or of other items of the phase): violations are returned next to the
-    recorded errors; only when NOTHING found a violation does a phase failure become a harness error (no verdict)."""
+def run_phase(tier, procs, monitors):
+    """extra_phase that never raises: -> (coverage, violations); a failure is recorded in coverage['errors'].
+    The check modules call it BEFORE their main search (the forked workers then copy a small heap) and merge afterwards."""
     import traceback
 
     try:
-        cov, viols = extra_phase(tier, procs, monitors)
+        return extra_phase(tier, procs, monitors)
     except Exception as e:  # noqa: BLE001
-        cov, viols = {'errors': [{'pair': '*', 'start': '*', 'error': f'{type(e).__name__}: {e}'[:600],
-                                  'traceback': traceback.format_exc()[-1500:]}]}, []
+        return {'errors': [{'pair': '*', 'start': '*', 'error': f'{type(e).__name__}: {e}'[:600],
+                            'traceback': traceback.format_exc()[-1500:]}]}, []
+
+
+def merge_into(result, phase):
+    """Merge run_phase()'s outcome into a check() result dict.  A failure inside the phase never hides a violation (of
+    the main search or of other items of the phase): violations are returned next to the recorded errors; only when
+    NOTHING found a violation does a phase failure become a harness error (no verdict)."""
+    cov, viols = phase
     result['coverage']['statement_interleavings'] = cov
     result['violations'] = list(result['violations']) + viols
     result['assumptions'] = list(result['assumptions']) + ASSUME
